@@ -5,6 +5,7 @@ import JanetModel.Fiber.Macros
 import JanetModel.Fiber.GuardLemmas
 import JanetModel.Fiber.GuardCleanup
 import JanetModel.Fiber.SchedLemmas
+import JanetModel.Fiber.GuardSchedLemmas
 import JanetModel.Fiber.Dyn
 import JanetModel.Fiber.Named
 namespace JanetModel.Props.C05
@@ -376,7 +377,8 @@ theorem try_arrival (s : State) (p f : FId) (rest : List FId) (fp ff : Fiber) (c
     the child chain (`contNoCheck_res`).  Needs the patched janet_continue_no_check (`chainAliveMarked`). -/
 theorem status_monotone (s : State) (hinv : Inv s) (n : Nat) (g : FId) (fg : Fiber) (hg : s.fiber? g = some fg) :
     ∃ fg', (run n s).fiber? g = some fg' ∧ Fwd fg.status fg'.status ∧ fg'.mask = fg.mask :=
-  (run_res n s hinv).1 g fg hg
+  let ⟨fg', h1, h2, h3, _⟩ := (run_res n s hinv).1 g fg hg
+  ⟨fg', h1, h2, h3⟩
 
 /-- … in particular for every script from the initial state -/
 theorem status_monotone_from_init (t : Tm) (flags : List Nat) (m n : Nat) (g : FId) (fg : Fiber)
@@ -843,7 +845,8 @@ theorem guard_refuses_only_resumable (lim n : Nat) (fp : Fiber) (b : Bool) (msg 
     false: `guard_clobbers_status_in_old_order`; the proof below does not typecheck there. -/
 theorem status_monotone_guarded (lim : Nat) (s : State) (hinv : Inv s) (n : Nat) (g : FId) (fg : Fiber) (hg : s.fiber? g = some fg) :
     ∃ fg', (runG guardAfterRefusals lim n s).fiber? g = some fg' ∧ Fwd fg.status fg'.status ∧ fg'.mask = fg.mask :=
-  (runG_res lim n s hinv).1 g fg hg
+  let ⟨fg', h1, h2, h3, _⟩ := (runG_res lim n s hinv).1 g fg hg
+  ⟨fg', h1, h2, h3⟩
 
 /-- … and the guarded machine IS the unguarded one as long as the counter stays below the limit, so every theorem about
     `step` / `run` above applies to such executions -/
@@ -902,6 +905,115 @@ example :
     let s := runG true 1 100 (init t [97])
     (s.snapshot, (s.trace.filter (fun e => e.l == 9)).length, s.halt.isSome) = ([stAlive, stError, stError], 0, true) := by
   decide
+
+/-! ## recursion guard AND event loop in one execution (session 4) -/
+
+/-- ★ statuses only move forward — whole executions in which BOTH happen: instructions of the guarded machine (guard trips
+    included, at any limit) and task dispatches of the event loop (continue / cancel, `loopEnterG`), in any order -/
+theorem status_monotone_guarded_sched (lim : Nat) (s : State) (hinv : Inv s) (ts : List Trans) (hs : SigsOK ts) (g : FId) (fg : Fiber)
+    (hg : s.fiber? g = some fg) :
+    ∃ fg', (runTG guardAfterRefusals lim s ts).fiber? g = some fg' ∧ Fwd fg.status fg'.status ∧ fg'.mask = fg.mask :=
+  let ⟨fg', h1, h2, h3, _⟩ := (runTG_res lim ts s hinv hs).1 g fg hg
+  ⟨fg', h1, h2, h3⟩
+
+theorem finished_is_forever_guarded_sched (lim : Nat) (s : State) (hinv : Inv s) (ts : List Trans) (hs : SigsOK ts) (g : FId) (fg : Fiber)
+    (hg : s.fiber? g = some fg) (hfin : isFinished fg.status = true) :
+    ∃ fg', (runTG guardAfterRefusals lim s ts).fiber? g = some fg' ∧ fg'.status = fg.status := by
+  obtain ⟨fg', h1, h2, _⟩ := (runTG_res lim ts s hinv hs).1 g fg hg
+  refine ⟨fg', h1, ?_⟩
+  rcases h2 with h | ⟨h, _⟩
+  · exact h.symm
+  · rw [hfin] at h; cases h
+
+theorem inv_runTG_take (lim : Nat) (s : State) (hinv : Inv s) (ts : List Trans) (k : Nat)
+    (hp : ∀ j (hj : j < ts.length), SigsOK [ts[j]]) : Inv (runTG true lim s (ts.take k)) := by
+  induction ts generalizing s k with
+  | nil => simpa [runTG] using hinv
+  | cons t ts ih =>
+    cases k with
+    | zero => simpa [runTG] using hinv
+    | succ k =>
+      simp only [List.take_succ_cons, runTG]
+      exact ih _ (transG_res lim s hinv t (hp 0 (by simp))).2 k (fun j hj => by have := hp (j + 1) (by simp; omega); rwa [List.getElem_cons_succ] at this)
+
+/-- ★ the cleanup / catch theorem for the COMBINATION that sessions 3 left open: along any execution made of guarded
+    instructions (a recursion-guard trip is one more refused resume; a trip inside a suspended child chain — of an
+    instruction's target or of a dispatched task — ends in `Stuck`) and event-loop dispatches (the loop continues or
+    cancels the macro's own fiber, an ancestor, an unrelated task: anything but the private body fiber), at any guard
+    limit: `p` stays blocked in the macro's `(resume f)` with the body not exited, or there is a FIRST transition after
+    which the machine is stuck, or the body is finished for ever and the code after the resume is what `p` runs, or the
+    body's exit passed `p` by and both are finished for ever.  Same hypotheses as `macro_runs_exactly_once_sched`. -/
+theorem macro_runs_exactly_once_guarded_sched (m : Nat) (hm : AccFin m) (lim : Nat) (p f : FId) (cont : Cont) (s : State) (hinv : Inv s)
+    (hne : p ≠ f) (hb : Blk m p f cont s s.stack) (ts : List Trans)
+    (hpriv : ∀ k (hk : k < ts.length), PrivT p f (runTG guardAfterRefusals lim s (ts.take k)) ts[k]) :
+    Blk m p f cont (runTG guardAfterRefusals lim s ts) (runTG guardAfterRefusals lim s ts).stack ∨
+    ∃ k, 0 < k ∧ k ≤ ts.length ∧
+      (∀ j, j < k → Blk m p f cont (runTG guardAfterRefusals lim s (ts.take j)) (runTG guardAfterRefusals lim s (ts.take j)).stack) ∧
+      (Stuck (runTG guardAfterRefusals lim s (ts.take k)) ∨
+       (Exited p f cont (runTG guardAfterRefusals lim s (ts.take k)) ∧
+          ∀ us, SigsOK us → ∃ ff, (runTG guardAfterRefusals lim (runTG guardAfterRefusals lim s (ts.take k)) us).fiber? f = some ff ∧
+            isFinished ff.status = true) ∨
+       (Passed m p f cont (runTG guardAfterRefusals lim s (ts.take k)) ∧
+          ∀ us, SigsOK us →
+            (∃ ff, (runTG guardAfterRefusals lim (runTG guardAfterRefusals lim s (ts.take k)) us).fiber? f = some ff ∧ isFinished ff.status = true) ∧
+            (∃ fp, (runTG guardAfterRefusals lim (runTG guardAfterRefusals lim s (ts.take k)) us).fiber? p = some fp ∧ isFinished fp.status = true))) := by
+  rcases blocked_until_exit_guarded_sched hm lim ts s hinv hne hb hpriv with h | ⟨k, hk0, hk, hbefore, hat⟩
+  · exact Or.inl h
+  · refine Or.inr ⟨k, hk0, hk, hbefore, ?_⟩
+    have hinv' : Inv (runTG true lim s (ts.take k)) := inv_runTG_take lim s hinv ts k (fun j hj => privT_sigsOK (hpriv j hj))
+    rcases hat with h | h | h
+    · exact Or.inl h
+    · refine Or.inr (Or.inl ⟨h, fun us hus => ?_⟩)
+      obtain ⟨⟨ff, hff, hfin⟩, _⟩ := h
+      obtain ⟨ff', h1, h2⟩ := finished_is_forever_guarded_sched lim _ hinv' us hus f ff hff hfin
+      exact ⟨ff', h1, h2 ▸ hfin⟩
+    · refine Or.inr (Or.inr ⟨h, fun us hus => ?_⟩)
+      obtain ⟨ff, fp, hff, hfp, hfin, _, _, hst, _, _⟩ := h
+      obtain ⟨ff', h1, h2⟩ := finished_is_forever_guarded_sched lim _ hinv' us hus f ff hff hfin
+      obtain ⟨fp', h3, h4⟩ := finished_is_forever_guarded_sched lim _ hinv' us hus p fp hfp (hst ▸ hfin)
+      exact ⟨⟨ff', h1, h2 ▸ hfin⟩, ⟨fp', h3, h4 ▸ (hst ▸ hfin)⟩⟩
+
+/-- ★ `defer` (mask :ti, `Passed` impossible): cleanup exactly once on every exit path including cancellation from the event
+    loop AND refusals by the recursion guard, in one execution -/
+theorem defer_runs_exactly_once_guarded_sched (lim : Nat) (p f : FId) (cont : Cont) (s : State) (hinv : Inv s) (hne : p ≠ f)
+    (hb : Blk (maskOfFlags flagsTI) p f cont s s.stack) (ts : List Trans)
+    (hpriv : ∀ k (hk : k < ts.length), PrivT p f (runTG guardAfterRefusals lim s (ts.take k)) ts[k]) :
+    Blk (maskOfFlags flagsTI) p f cont (runTG guardAfterRefusals lim s ts) (runTG guardAfterRefusals lim s ts).stack ∨
+    ∃ k, 0 < k ∧ k ≤ ts.length ∧
+      (∀ j, j < k → Blk (maskOfFlags flagsTI) p f cont (runTG guardAfterRefusals lim s (ts.take j)) (runTG guardAfterRefusals lim s (ts.take j)).stack) ∧
+      (Stuck (runTG guardAfterRefusals lim s (ts.take k)) ∨
+       (Exited p f cont (runTG guardAfterRefusals lim s (ts.take k)) ∧
+          ∀ us, SigsOK us → ∃ ff, (runTG guardAfterRefusals lim (runTG guardAfterRefusals lim s (ts.take k)) us).fiber? f = some ff ∧
+            isFinished ff.status = true)) := by
+  rcases macro_runs_exactly_once_guarded_sched _ accFin_TI lim p f cont s hinv hne hb ts hpriv with h | ⟨k, hk0, hk, hbefore, hat⟩
+  · exact Or.inl h
+  · refine Or.inr ⟨k, hk0, hk, hbefore, ?_⟩
+    rcases hat with h | h | ⟨h, _⟩
+    · exact Or.inl h
+    · exact Or.inr h
+    · obtain ⟨ff, _, _, _, hfin, hlt, hrej, _⟩ := h
+      rw [rejected_unfinished ff.status hlt hrej] at hfin; cases hfin
+
+/-- the combined machine really does both in ONE execution (guard limit 2 above the loop): the task's `defer` body yields, the
+    task is left suspended; the loop re-schedules it (`ev/go`: dispatch with JANET_SIGNAL_OK, re-entry through the child
+    chain), the body — now running at the limit — resumes a new worker: the guard refuses it (worker :error without having
+    run: label 9 never logged, the resume's own label 8 neither), the body exits with the guard's error and the cleanup
+    (label 6) runs exactly once; a later `ev/cancel` of the finished task is refused and runs nothing -/
+example :
+    let worker : Tm := .prim 9 (.pure (.lit (.int 1))) (.ret nilA)
+    let body : Tm := .prim 3 (.pure (.lit (.int 10))) (.prim 4 (.yield (.lit (.int 11)))
+      (.new 5 worker [97] (.prim 8 (.resume (.var 2) nilA) (.ret (.lit (.int 13))))))
+    let form : Tm := .prim 6 (.pure (.lit (.int 20))) (.ret (.lit (.int 21)))
+    let t : Tm := deferTm 0 7 form body (.ret (.var 0))
+    let steps : List Trans := List.replicate 40 .step
+    let s1 := runTG true 2 (initTask t [] {} .nil) steps
+    let s2 := runTG true 2 s1 (.enter 1 (.str "go") sigOk :: steps)
+    let s3 := runTG true 2 s2 (.enter 1 (.str "again") sigError :: steps)
+    ((s1.trace.filter (fun e => e.l == 6)).length, s1.snapshot,
+     (s2.trace.filter (fun e => e.l == 6)).length, (s2.trace.filter (fun e => e.l == 9 || e.l == 8)).length, s2.snapshot,
+     (s3.trace.filter (fun e => e.l == 6)).length, s3.snapshot)
+      = (0, [stUser9, stPending, stPending], 1, 0, [stUser9, stError, stError, stError], 1, [stUser9, stError, stError, stError]) := by
+  decide +kernel
 
 /-! ## dynamic bindings -/
 
@@ -979,10 +1091,52 @@ theorem fiber_new_env_links (p : FId) (acc : State × Fiber × Option Nat) :
 
 /-- ★ for ALL histories: along every execution of any script no table is ever removed and no prototype link ever changes —
     "inherits from" is a permanent relation, so the three theorems above apply to every later write.
-    PARTIAL in one respect (named here, not hidden): that a fiber's `denv` index itself never changes once set is NOT proved
-    as a whole-execution invariant (it holds by inspection: only `ensureEnv` writes the field, from `none`); the trace
-    correspondence + oracle R6 check every `dyn` read of every generated tree against an independent table model. -/
+    That a fiber's own `denv` index never changes once set is `denv_never_reassigned` below. -/
 theorem dyn_links_permanent (n : Nat) (s : State) : DGrow s.denvs (run n s).denvs := run_dgrow n s
+
+/-- ★ a fiber's environment index is never reassigned (session 4; was "by inspection"): along EVERY execution from a state
+    satisfying the machine invariant, a fiber that has an environment table keeps exactly that table — `fiber->env` is
+    written in one place only (`ensureEnv` = `if (!janet_vm.fiber->env) janet_vm.fiber->env = janet_table(0)`, and by
+    fiber/new for the NEW fiber), and only when it is NULL.  The fact is a conjunct of the machine-wide step relation
+    `Mono` (Fiber/Invariant.lean), so it is proved through `unwind` / `contNoCheck` / every instruction at once. -/
+theorem denv_never_reassigned (s : State) (hinv : Inv s) (n : Nat) (g : FId) (fg : Fiber) (e : Nat)
+    (hg : s.fiber? g = some fg) (he : fg.denv = some e) :
+    ∃ fg', (run n s).fiber? g = some fg' ∧ fg'.denv = some e :=
+  let ⟨fg', h1, _, _, h4⟩ := (run_res n s hinv).1 g fg hg
+  ⟨fg', h1, h4 e he⟩
+
+theorem denv_never_reassigned_from_init (t : Tm) (flags : List Nat) (m n : Nat) (g : FId) (fg : Fiber) (e : Nat)
+    (hg : (run m (init t flags)).fiber? g = some fg) (he : fg.denv = some e) :
+    ∃ fg', (run n (run m (init t flags))).fiber? g = some fg' ∧ fg'.denv = some e :=
+  denv_never_reassigned _ (run_res m _ (init_inv t flags)).2 n g fg e hg he
+
+/-- … also when the recursion guard trips and the event loop dispatches tasks, in any order (`runTG`) -/
+theorem denv_never_reassigned_guarded_sched (lim : Nat) (s : State) (hinv : Inv s) (ts : List Trans) (hs : SigsOK ts)
+    (g : FId) (fg : Fiber) (e : Nat) (hg : s.fiber? g = some fg) (he : fg.denv = some e) :
+    ∃ fg', (runTG guardAfterRefusals lim s ts).fiber? g = some fg' ∧ fg'.denv = some e :=
+  let ⟨fg', h1, _, _, h4⟩ := (runTG_res lim ts s hinv hs).1 g fg hg
+  ⟨fg', h1, h4 e he⟩
+
+/-- ★ together with `dyn_links_permanent`: the table a fiber reads its dynamic bindings from, and that table's prototype
+    link, are the same after any execution — "inherits the environment of" is a permanent relation between FIBERS -/
+theorem dyn_table_and_proto_permanent (s : State) (hinv : Inv s) (n : Nat) (g : FId) (fg : Fiber) (e : Nat) (d : DEnv)
+    (hg : s.fiber? g = some fg) (he : fg.denv = some e) (hd : s.denvs[e]? = some d) :
+    ∃ fg' d', (run n s).fiber? g = some fg' ∧ fg'.denv = some e ∧ (run n s).denvs[e]? = some d' ∧ d'.proto = d.proto := by
+  obtain ⟨fg', h1, h2⟩ := denv_never_reassigned s hinv n g fg e hg he
+  obtain ⟨d', h3, h4⟩ := (run_dgrow n s).2 e d hd
+  exact ⟨fg', d', h1, h2, h3, h4⟩
+
+/-- non-vacuity: a worker created with `:yp` sets a binding (its table is created by fiber/new: index 2, prototype 1 = the
+    creator's), yields, is resumed and sets another one: same table index before and after, both bindings in it; the
+    creator (the tree's root fiber, table 1 from its first `setdyn`) and the harness fiber (table 0) keep theirs too -/
+example :
+    let w : Tm := .prim 2 (.setdyn 7 (.lit (.int 1))) (.prim 3 (.yield nilA) (.prim 4 (.setdyn 8 (.lit (.int 2))) (.ret nilA)))
+    let t : Tm := .prim 9 (.setdyn 5 (.lit (.int 0))) (.new 1 w [121, 112] (.prim 5 (.resume (.var 1) nilA) (.prim 6 (.resume (.var 1) nilA) (.ret nilA))))
+    let s1 := run 12 (init t [97])
+    let s2 := run 100 (init t [97])
+    (s1.fibers.map (·.denv), s2.fibers.map (·.denv), s2.denvs.map (·.proto), s2.denvs.map (fun d => d.tbl.map (·.1))) =
+      ([some 0, some 1, some 2], [some 0, some 1, some 2], [none, none, some 1], [[], [5], [8, 7]]) := by
+  decide +kernel
 
 /-- non-vacuity: a chain of three tables 2 → 1 → 0 (grand-child :p of child :p of parent); a write to table 0 is seen from 2,
     a write to table 2 is not seen from 0 or 1, and a nil write to 1 uncovers table 0's binding -/
